@@ -2205,6 +2205,15 @@ def _lt(token: TokenT, left: object, right: object) -> bool:
 def _contains(token: TokenT, left: object, right: object) -> bool:
     if isinstance(left, str):
         return str(right) in left
+    if isinstance(left, range) and not isinstance(right, int):
+        # Python compares anything that is not an int to every item of the range,
+        # one at a time. Only a whole number can be equal to one of them.
+        if isinstance(right, (float, Decimal)):
+            try:
+                return right == int(right) and int(right) in left
+            except (ValueError, ArithmeticError):
+                return False
+        return False
     if isinstance(left, Collection):
         try:
             return right in left
